@@ -413,9 +413,10 @@ pub fn run(tier: &str) -> i32 {
     acc = Acc::merge(acc, rr.acc);
 
     // ---- membership in list literals: X in [v1..vn] iff X equals some vi (scalar X)
-    let sc: Vec<V> = u.iter().filter(|v| scalar(v) && v.guard_expressible() && !matches!(v, V::Int(i64::MIN))).cloned().collect();
+    // (maps are members by key set and values, whatever the key order on either side)
+    let sc: Vec<V> = u.iter().filter(|v| (scalar(v) || matches!(v, V::Map(_))) && v.guard_expressible() && !matches!(v, V::Int(i64::MIN))).cloned().collect();
     let mut lists: Vec<Vec<V>> = vec![];
-    let pick: Vec<V> = vec![i(1), i(0), f(1.0), s("a"), s("1"), V::Bool(true), V::Null, f(0.5)];
+    let pick: Vec<V> = vec![i(1), i(0), f(1.0), s("a"), s("1"), V::Bool(true), V::Null, f(0.5), m(vec![("b", i(2)), ("a", i(1))]), m(vec![("a", i(1))])];
     for a in &pick {
         lists.push(vec![a.clone()]);
         for b in &pick {
